@@ -6,7 +6,7 @@
    CBC on every run (harness/c04.py, structural tie).  The rule invariants below hold for EVERY feasible point [x] of it,
    for any number of candidate alleles, variants, sites, copies and read modes; selectors: [kA a] allele copy a selected,
    [kK a m] definition variant m kept on a, [kN a m] variant m added to a, [kPH a ri] read mode ri assigned to a. *)
-From Aldy Require Import Base Consts Lp MinorModel MinorSpec MinorProofs Consts_here Consts_wf.
+From Aldy Require Import Base Consts Lp MinorModel MinorSpec MinorProofs Consts_here Consts_wf Exprs_cov Tied_cov_minor.
 Open Scope Q_scope.
 
 Theorem C04_consts_here_wf : consts_wf here = true.
@@ -223,3 +223,13 @@ Example C04_feasible_example_phase :
 Proof. split; [exact witness_p_feasible|exact witness_p_has_phase]. Qed.
 Goal True. idtac "ASSUME C04_feasible_example_phase". Abort.
 Print Assumptions C04_feasible_example_phase.
+
+(* ================================================================= tie to the current source tree
+   The decision expressions below are regenerated from /repo's Python AST on every run (harness/gen_exprs.py -> gen/Exprs_cov.v);
+   each theorem says that the model's definition IS that expression, for all arguments.  A change of the expression in the code
+   breaks the obligation even when no sampled input distinguishes old and new behaviour. *)
+Theorem C04_tie_single_copy : forall cov total pcn, Qltb 0 pcn = true ->
+  MinorModel.obs cov total pcn = (cov / single_copy_val total pcn)%Q.
+Proof. exact single_copy_minor_tied. Qed.
+Goal True. idtac "ASSUME C04_tie_single_copy". Abort.
+Print Assumptions C04_tie_single_copy.
